@@ -42,6 +42,13 @@ package main
 //                        <us> > 0 additionally wraps the FSM handed to raft so that every FSM.Apply sleeps <us> microseconds first.
 //                        A 4xx answer to the retry (session not yet replayed) ends the client (refused_while_replaying);
 //                        the scenario goes on when the child reports that it has replayed its log (file caughtup-<run>)
+//   X                    client 0 joins #extra and sets a topic there (so that a later JOIN #extra answers JOIN+332+333+353+366)
+//   CB:<k>:<cmd>:<cut>:<mode>:<us>  CUT INSIDE A BATCH: client k posts a command whose answer is ONE output batch of several messages
+//                        addressed to k itself (cmd 0 WHOIS <own nick>, 1 NAMES #verif, 2 WHO #verif, 3 LIST, 4 JOIN #extra); its live
+//                        reader cuts its connection client-side after it decoded <cut> messages of that batch (id X) and stays away;
+//                        mode 0: it reconnects at once with lastseen=X.<cut> (caught-up node: control); mode 1/2: the node is SIGKILLed,
+//                        restarted WITHOUT the Barrier (as RI: announced at leadership / when the listener is up, FSM.Apply delayed by
+//                        <us> microseconds if > 0) and the reader reconnects immediately with lastseen=X.<cut> while the node replays
 //   G                    every client fetches the increment of its stream (resume protocol: lastseen=<last id seen>)
 //   (end of line)        G, then every client fetches its whole stream (lastseen=0.0)
 // LIVE READERS: from its JOIN on every client also keeps a long-poll GET .../messages?lastseen=<last id it saw> open in a
@@ -327,23 +334,23 @@ func TestVerifSysChild(t *testing.T) {
 // ---- parent: the node as a child process --------------------------------------------------
 
 type vsSrv struct {
-	mu       sync.Mutex
-	base     string // scratch directory of the scenario
-	dir      string // raft directory
-	run      int
-	cmd      *exec.Cmd
-	up       bool
-	port     int
-	gen      int
-	started  bool
-	expected bool // the exit of the current child is scripted
-	done     chan struct{}
-	crashes  []string
-	delayUs  int
+	mu             sync.Mutex
+	base           string // scratch directory of the scenario
+	dir            string // raft directory
+	run            int
+	cmd            *exec.Cmd
+	up             bool
+	port           int
+	gen            int
+	started        bool
+	expected       bool // the exit of the current child is scripted
+	done           chan struct{}
+	crashes        []string
+	delayUs        int
 	nextNoBarrier  int // D14 probe: options of the next start only
 	nextApplyDelay int
-	crashed  bool // the child died unscripted while it was serving; waitUp restarts it
-	dead     bool // gave up restarting
+	crashed        bool // the child died unscripted while it was serving; waitUp restarts it
+	dead           bool // gave up restarting
 }
 
 func vsTail(path string, n int) string {
@@ -538,6 +545,22 @@ type vsAck struct {
 	Fails    []string `json:"fails,omitempty"`
 }
 
+type vsMsg struct {
+	Id, Reply uint64
+	Data      string
+}
+
+type vsCut struct {
+	Cmd       string `json:"cmd"`
+	Mode      int    `json:"mode"`
+	Batch     uint64 `json:"batch_id"`
+	K         int    `json:"messages_read_before_cut"`
+	Lastseen  string `json:"reconnected_with_lastseen"`
+	Outcome   string `json:"outcome"`
+	ReplayMs  int64  `json:"ms_until_node_caught_up,omitempty"`
+	ResumedMs int64  `json:"ms_until_reader_resumed,omitempty"`
+}
+
 type vsClient struct {
 	K        int        `json:"k"`
 	Nick     string     `json:"nick"`
@@ -557,6 +580,18 @@ type vsClient struct {
 	LiveConn int        `json:"live_connects"`
 	LiveUns  int        `json:"live_ids_not_increasing"`
 	LiveErrs []string   `json:"live_errors,omitempty"`
+	LiveIds  []uint64   `json:"live_ids"` // idx, reply, idx, reply, ...  (idx = id - robustirc_message_offset)
+	FullIds  []uint64   `json:"full_ids"`
+	Diff     []string   `json:"live_vs_full,omitempty"`
+	Cuts     []vsCut    `json:"cuts,omitempty"`
+
+	liveAll     []vsMsg
+	cutArm      int // cut after this many messages of the batch whose first message contains cutMatch
+	cutMatch    string
+	cutBatch    uint64
+	cutCount    int
+	cutDone     chan vsMsg
+	joinedExtra bool
 
 	liveMu     sync.Mutex
 	liveWant   bool
@@ -726,7 +761,7 @@ func (c *vsCase) privmsg(cl *vsClient, opt vsPostOpt) bool {
 }
 
 func (c *vsCase) createClient(k int) {
-	cl := &vsClient{K: k, Nick: fmt.Sprintf("cl%d", k), Acks: []vsAck{}, Live: [][]string{}, Full: [][]string{}, LiveRead: [][]string{}, cmid: uint64(1000 * (k + 1))}
+	cl := &vsClient{K: k, Nick: fmt.Sprintf("cl%d", k), Acks: []vsAck{}, Live: [][]string{}, Full: [][]string{}, LiveRead: [][]string{}, LiveIds: []uint64{}, FullIds: []uint64{}, cmid: uint64(1000 * (k + 1))}
 	c.clients[k] = cl
 	c.order = append(c.order, k)
 	for attempt := 0; attempt < 50 && !cl.Created; attempt++ {
@@ -856,6 +891,23 @@ func (c *vsCase) liveOnce(ctx context.Context, cl *vsClient, lastseen string, pr
 		}
 		*prev = m.Id
 		cl.liveSeen = fmt.Sprintf("%d.%d", m.Id.Id, m.Id.Reply)
+		cl.liveAll = append(cl.liveAll, vsMsg{m.Id.Id, m.Id.Reply, m.Data})
+		if cl.cutArm > 0 {
+			if m.Id.Id == cl.cutBatch {
+				cl.cutCount++
+			} else if strings.Contains(m.Data, cl.cutMatch) {
+				cl.cutBatch, cl.cutCount = m.Id.Id, 1
+			}
+			if m.Id.Id == cl.cutBatch && cl.cutCount == cl.cutArm {
+				// cut the connection inside the batch and stay away until told to come back
+				cl.cutArm = 0
+				cl.liveWant = false
+				ch := cl.cutDone
+				cl.liveMu.Unlock()
+				ch <- vsMsg{m.Id.Id, m.Id.Reply, m.Data}
+				return false
+			}
+		}
 		final := cl.liveFinal
 		f := strings.SplitN(m.Data, " ", 4)
 		if len(f) == 4 && f[1] == "PRIVMSG" && f[2] == vsChannel {
@@ -870,6 +922,157 @@ func (c *vsCase) liveOnce(ctx context.Context, cl *vsClient, lastseen string, pr
 			return true
 		}
 	}
+}
+
+// liveCompare writes the ids of everything the live reader received and of the whole stream into the result, plus a
+// readable difference (the python monitor decides on the ids).
+func (c *vsCase) liveCompare(cl *vsClient, full []vsMsg) {
+	off := *messageOffset
+	cl.liveMu.Lock()
+	defer cl.liveMu.Unlock()
+	seen := map[[2]uint64]int{}
+	for _, m := range cl.liveAll {
+		cl.LiveIds = append(cl.LiveIds, m.Id-off, m.Reply)
+		seen[[2]uint64{m.Id, m.Reply}]++
+	}
+	var lastLive [2]uint64
+	if n := len(cl.liveAll); n > 0 {
+		lastLive = [2]uint64{cl.liveAll[n-1].Id, cl.liveAll[n-1].Reply}
+	}
+	inFull := map[[2]uint64]bool{}
+	for _, m := range full {
+		cl.FullIds = append(cl.FullIds, m.Id-off, m.Reply)
+		k := [2]uint64{m.Id, m.Reply}
+		inFull[k] = true
+		behind := m.Id > lastLive[0] || (m.Id == lastLive[0] && m.Reply > lastLive[1])
+		if cl.LiveOn && !behind && seen[k] == 0 && len(cl.Diff) < 12 {
+			cl.Diff = append(cl.Diff, fmt.Sprintf("missed %d.%d %q", m.Id-off, m.Reply, m.Data))
+		}
+	}
+	for _, m := range cl.liveAll {
+		k := [2]uint64{m.Id, m.Reply}
+		if (seen[k] > 1 || !inFull[k]) && len(cl.Diff) < 12 {
+			cl.Diff = append(cl.Diff, fmt.Sprintf("extra(%dx) %d.%d %q", seen[k], m.Id-off, m.Reply, m.Data))
+			seen[k] = 1
+			inFull[k] = true
+		}
+	}
+}
+
+// waitCaughtUp: after a restart without the Barrier, go on only when the child reports that it replayed its log.
+func (c *vsCase) waitCaughtUp(what string) bool {
+	c.srv.mu.Lock()
+	cu := filepath.Join(c.srv.dir, "caughtup-"+strconv.Itoa(c.srv.run))
+	done := c.srv.done
+	c.srv.mu.Unlock()
+	deadline := time.Now().Add(90 * time.Second)
+	for {
+		if _, err := os.Stat(cu); err == nil {
+			return true
+		}
+		stop := false
+		select {
+		case <-done:
+			stop = true
+		default:
+		}
+		if stop || time.Now().After(deadline) || c.ctx.Err() != nil {
+			c.fail("%s: the restarted node did not report that it replayed its log", what)
+			return false
+		}
+		time.Sleep(500 * time.Microsecond)
+	}
+}
+
+// cutInsideBatch: see CB in the header.
+func (c *vsCase) cutInsideBatch(cl *vsClient, cmd, cut, mode, applyDelay int) bool {
+	if !cl.LiveOn || cl.Dead != "" || cut < 1 {
+		return true
+	}
+	line, match := "", ""
+	switch cmd {
+	case 1:
+		line, match = "NAMES "+vsChannel, " 353 "
+	case 2:
+		line, match = "WHO "+vsChannel, " 352 "
+	case 3:
+		line, match = "LIST", " 322 "
+	case 4:
+		if !cl.joinedExtra && cl.K != 0 {
+			cl.joinedExtra = true
+			line, match = "JOIN #extra", " JOIN "
+			break
+		}
+		fallthrough
+	default:
+		line, match = "WHOIS "+cl.Nick, " 311 "
+	}
+	if cmd == 1 && cut > 1 {
+		cut = 1 // NAMES answers 353 + 366 only
+	}
+	done := make(chan vsMsg, 1)
+	cl.liveMu.Lock()
+	cl.cutArm, cl.cutMatch, cl.cutBatch, cl.cutCount, cl.cutDone = cut, match, 0, 0, done
+	cl.liveMu.Unlock()
+	cl.mu.Lock()
+	rec := c.post(cl, line, vsPostOpt{})
+	cl.mu.Unlock()
+	rc := vsCut{Cmd: line, Mode: mode, Outcome: "no-cut"}
+	if !rec.Acked {
+		cl.liveMu.Lock()
+		cl.cutArm = 0
+		cl.liveMu.Unlock()
+		cl.Dead = "command not acknowledged: " + strings.Join(rec.Fails, ",")
+		return true
+	}
+	timer := time.NewTimer(10 * time.Second)
+	defer timer.Stop()
+	select {
+	case m := <-done:
+		rc.Batch, rc.K = m.Id-*messageOffset, cut
+		rc.Lastseen = fmt.Sprintf("%d.%d", m.Id-*messageOffset, m.Reply)
+		rc.Outcome = "cut"
+	case <-timer.C:
+		cl.liveMu.Lock()
+		cl.cutArm = 0
+		cl.liveWant = true
+		cl.liveMu.Unlock()
+		cl.Cuts = append(cl.Cuts, rc)
+		c.event("CB:mode=%d:no-cut", mode)
+		return true
+	case <-c.ctx.Done():
+		return false
+	}
+	// the reader is away now (liveWant=false); wait until its request is really gone
+	for {
+		cl.liveMu.Lock()
+		a := cl.liveActive
+		cl.liveMu.Unlock()
+		if !a {
+			break
+		}
+		time.Sleep(100 * time.Microsecond)
+	}
+	ok := true
+	t0 := time.Now()
+	if mode > 0 {
+		c.srv.kill()
+		c.srv.mu.Lock()
+		c.srv.nextNoBarrier, c.srv.nextApplyDelay = mode, applyDelay
+		c.srv.mu.Unlock()
+		ok = c.restart(0)
+	}
+	cl.liveMu.Lock()
+	cl.liveWant = true
+	cl.liveMu.Unlock()
+	rc.ResumedMs = time.Since(t0).Milliseconds()
+	if mode > 0 && ok {
+		ok = c.waitCaughtUp("CB")
+		rc.ReplayMs = time.Since(t0).Milliseconds()
+	}
+	cl.Cuts = append(cl.Cuts, rc)
+	c.event("CB:mode=%d:cut", mode)
+	return ok
 }
 
 // livePause makes the live readers give up their requests (a G fetch of the same session would supersede them anyway).
@@ -949,7 +1152,7 @@ func (c *vsCase) liveFinish(wait bool) {
 }
 
 // fetch reads the client's stream from lastseen until the PONG carrying token.
-func (c *vsCase) fetch(cl *vsClient, lastseen, token string) (msgs [][]string, last string, unsorted int, err error) {
+func (c *vsCase) fetch(cl *vsClient, lastseen, token string, all *[]vsMsg) (msgs [][]string, last string, unsorted int, err error) {
 	// Like the bridge: when the stream ends before the PONG (the request was superseded by a late-starting
 	// handler of an earlier, already cancelled request of the same session, or the node went away), reconnect with
 	// the id of the last message received and go on.
@@ -958,7 +1161,7 @@ func (c *vsCase) fetch(cl *vsClient, lastseen, token string) (msgs [][]string, l
 	var prev robust.Id
 	msgs = [][]string{}
 	for attempt := 0; ; attempt++ {
-		done, ferr := c.fetchOnce(ctx, cl, lastseen, token, &msgs, &last, &unsorted, &prev)
+		done, ferr := c.fetchOnce(ctx, cl, lastseen, token, &msgs, &last, &unsorted, &prev, all)
 		if done {
 			return msgs, last, unsorted, nil
 		}
@@ -972,7 +1175,7 @@ func (c *vsCase) fetch(cl *vsClient, lastseen, token string) (msgs [][]string, l
 	}
 }
 
-func (c *vsCase) fetchOnce(ctx context.Context, cl *vsClient, lastseen, token string, msgs *[][]string, last *string, unsorted *int, prev *robust.Id) (bool, error) {
+func (c *vsCase) fetchOnce(ctx context.Context, cl *vsClient, lastseen, token string, msgs *[][]string, last *string, unsorted *int, prev *robust.Id, all *[]vsMsg) (bool, error) {
 	base, err := c.srv.waitUp(ctx)
 	if err != nil {
 		return false, err
@@ -1002,6 +1205,9 @@ func (c *vsCase) fetchOnce(ctx context.Context, cl *vsClient, lastseen, token st
 		}
 		*prev = m.Id
 		*last = fmt.Sprintf("%d.%d", m.Id.Id, m.Id.Reply)
+		if all != nil {
+			*all = append(*all, vsMsg{m.Id.Id, m.Id.Reply, m.Data})
+		}
 		f := strings.SplitN(m.Data, " ", 4)
 		if len(f) >= 3 && f[1] == "PONG" && strings.TrimPrefix(f[2], ":") == token {
 			return true, nil
@@ -1040,7 +1246,7 @@ func (c *vsCase) fetchAll(full bool) {
 			if ls == "" {
 				ls = "0.0"
 			}
-			msgs, last, uns, err := c.fetch(cl, ls, token)
+			msgs, last, uns, err := c.fetch(cl, ls, token, nil)
 			cl.Unsorted += uns
 			if err != nil {
 				c.fail("client %d: incremental fetch from %s: %v", cl.K, ls, err)
@@ -1052,13 +1258,15 @@ func (c *vsCase) fetchAll(full bool) {
 				cl.lastSeen = last
 			}
 			if full {
-				msgs, _, uns, err := c.fetch(cl, "0.0", token)
+				var all []vsMsg
+				msgs, _, uns, err := c.fetch(cl, "0.0", token, &all)
 				cl.Unsorted += uns
 				if err != nil {
 					c.fail("client %d: full fetch: %v", cl.K, err)
 					return
 				}
 				cl.Full, cl.FullOK = msgs, true
+				c.liveCompare(cl, all)
 			}
 		}(cl)
 	}
@@ -1196,6 +1404,24 @@ func (c *vsCase) step(tok string) bool {
 		c.postConfig()
 	case "C":
 		c.createClient(vsAtoi(arg(1)))
+	case "X":
+		if cl := c.clients[0]; cl != nil && cl.Dead == "" {
+			cl.mu.Lock()
+			for _, line := range []string{"JOIN #extra", "TOPIC #extra :a topic for the verification"} {
+				if rec := c.post(cl, line, vsPostOpt{}); !rec.Acked {
+					cl.Dead = "setup (" + line + "): " + strings.Join(rec.Fails, ",")
+					break
+				}
+			}
+			cl.joinedExtra = true
+			cl.mu.Unlock()
+		}
+	case "CB":
+		if cl := c.clients[vsAtoi(arg(1))]; cl != nil {
+			if !c.cutInsideBatch(cl, vsAtoi(arg(2)), vsAtoi(arg(3)), vsAtoi(arg(4)), vsAtoi(arg(5))) {
+				return false
+			}
+		}
 	case "M":
 		cl := c.clients[vsAtoi(arg(1))]
 		if cl == nil {
@@ -1310,27 +1536,8 @@ func (c *vsCase) step(tok string) bool {
 			if !ok {
 				return false
 			}
-			// go on only when the node has replayed its log
-			c.srv.mu.Lock()
-			cu := filepath.Join(c.srv.dir, "caughtup-"+strconv.Itoa(c.srv.run))
-			done := c.srv.done
-			c.srv.mu.Unlock()
-			deadline := time.Now().Add(90 * time.Second)
-			for {
-				if _, err := os.Stat(cu); err == nil {
-					break
-				}
-				stop := false
-				select {
-				case <-done:
-					stop = true
-				default:
-				}
-				if stop || time.Now().After(deadline) || c.ctx.Err() != nil {
-					c.fail("RI: the restarted node did not report that it replayed its log")
-					return false
-				}
-				time.Sleep(500 * time.Microsecond)
+			if !c.waitCaughtUp("RI") {
+				return false
 			}
 		}
 	case "K":
